@@ -221,6 +221,17 @@ M = [
     ("C05", "unencodable-reliable-stays-queued", P + "base/message/circuit.py",
      "                self.unacked_reliable.pop((message.direction, message.packet_id), None)\n                raise",
      "                raise"),
+    ("C16", "slash-seed-wrapper-host", P + "proxy/region.py",
+     "self.caps[\"Seed\"][1].rstrip(\"/\").split(\"/\")[-1]", "self.caps[\"Seed\"][1].split(\"/\")[-1]"),
+    ("C18", "frozen-entry-weak-deserializer", P + "proxy/message_logger.py",
+     "        self._deserializer = deserializer_ref() if deserializer_ref is not None else None\n",
+     "        self._deserializer = None\n"),
+    ("C19", "resend-skips-not-alive", P + "client/hippo_client.py",
+     "                region.circuit.resend_unacked()",
+     "                if not region.circuit.is_alive:\n                    continue\n                region.circuit.resend_unacked()"),
+    ("C06", "handleless-region-tracked", P + "proxy/lludp_proxy.py",
+     "            if region.handle is not None:\n                self.session.objects.track_region_objects(region.handle)",
+     "            self.session.objects.track_region_objects(region.handle)"),
     # ---- C20 ----
     ("C20", "transfer-done-on-done-packet", P + "base/transfer_manager.py",
      "        if not transfer.done() and len(transfer.chunks) == transfer.expected_chunks:",
